@@ -165,11 +165,13 @@ pub struct Focus {
     pub many_assets: u64,
     /// force this maximum transaction size (the "squeeze" workload of C07)
     pub max_tx_size: Option<u64>,
+    /// make the first explicit key input this many lovelace poorer (the "tuned change" workloads)
+    pub tune_first_key_input: Option<i128>,
 }
 
 impl Default for Focus {
     fn default() -> Focus {
-        Focus { plutus: 5, scripts: 4, certs: 6, withdrawals: 5, votes: 3, proposals: 3, mint: 5, assets: 6, byron: 3, refs: 4, overlap: 6, coin_select: 6, small_limits: 3, collateral_helpers: 4, many_assets: 2, max_tx_size: None }
+        Focus { plutus: 5, scripts: 4, certs: 6, withdrawals: 5, votes: 3, proposals: 3, mint: 5, assets: 6, byron: 3, refs: 4, overlap: 6, coin_select: 6, small_limits: 3, collateral_helpers: 4, many_assets: 2, max_tx_size: None, tune_first_key_input: None }
     }
 }
 
@@ -202,6 +204,8 @@ pub struct Outcome {
     pub extra_signers: Vec<Vec<u8>>,
     /// some input was first registered with a Plutus witness and then re-registered as a key input
     pub superseded: bool,
+    /// the tuning of the first key input was applied
+    pub tuned: bool,
     /// (Plutus input, the reference input declared to carry its datum)
     pub datum_refs: Vec<((Vec<u8>, u64), (Vec<u8>, u64))>,
     /// certificates in the order of their first successful registration
@@ -228,6 +232,8 @@ pub struct Scn<'a> {
     pub extra_signers: Vec<Vec<u8>>,
     /// some input was first registered with a Plutus witness and then re-registered as a key input
     pub superseded: bool,
+    /// the tuning of the first key input was applied
+    pub tuned: bool,
     /// (Plutus input, the reference input declared to carry its datum)
     pub datum_refs: Vec<((Vec<u8>, u64), (Vec<u8>, u64))>,
     /// certificates in the order of their first successful registration
@@ -254,7 +260,7 @@ pub fn val_to_csl(v: &Val) -> Value {
 impl<'a> Scn<'a> {
     pub fn new(r: &'a mut Rng, ring: &'a KeyRing, f: Focus) -> Scn<'a> {
         let net = r.below(2) as u8;
-        Scn { r, ring, f, utxos: vec![], log: vec![], markers: vec![], next_marker: 1000, next_tx: 1, declared_refs: vec![], net, used_langs: vec![], panics: vec![], extra_signers: vec![], superseded: false, datum_refs: vec![], cert_order: vec![], verbatim_datums: false }
+        Scn { r, ring, f, utxos: vec![], log: vec![], markers: vec![], next_marker: 1000, next_tx: 1, declared_refs: vec![], net, used_langs: vec![], panics: vec![], extra_signers: vec![], superseded: false, tuned: false, datum_refs: vec![], cert_order: vec![], verbatim_datums: false }
     }
     fn p(&mut self, num: u64) -> bool {
         self.r.below(16) < num
@@ -1192,6 +1198,14 @@ pub fn run_scenario(r: &mut Rng, ring: &KeyRing, f: Focus) -> Option<Outcome> {
             0 => {
                 let k = s.key_ix();
                 let addr = s.key_address(k);
+                if let Some(d) = s.f.tune_first_key_input {
+                    if val.coin - d >= 1_000_000 {
+                        val.coin -= d;
+                        s.log.push(format!("(tuned: this key input was made {} lovelace poorer)", d));
+                        s.tuned = true;
+                        s.f.tune_first_key_input = None;
+                    }
+                }
                 let i = s.new_utxo(&addr, val.clone());
                 let o = s.outpoint(i);
                 let res = if use_direct_api {
@@ -1472,6 +1486,14 @@ pub fn run_scenario(r: &mut Rng, ring: &KeyRing, f: Focus) -> Option<Outcome> {
             if v.coin < 1_000_000 {
                 v.coin += 1_000_000;
             }
+            // the tuning not yet applied to an explicit key input is applied here
+            if let Some(d) = s.f.tune_first_key_input.take() {
+                if v.coin - d >= 1_000_000 {
+                    v.coin -= d;
+                    s.log.push(format!("(tuned: the top-up input was made {} lovelace poorer)", d));
+                    s.tuned = true;
+                }
+            }
             let k = s.key_ix();
             let addr = s.key_address(k);
             let i = s.new_utxo(&addr, v.clone());
@@ -1571,6 +1593,7 @@ pub fn run_scenario(r: &mut Rng, ring: &KeyRing, f: Focus) -> Option<Outcome> {
         builder_before_balance: Some(tb_before),
         extra_signers: s.extra_signers,
         superseded: s.superseded,
+        tuned: s.tuned,
         datum_refs: s.datum_refs,
         cert_order: s.cert_order,
         verbatim_datums: s.verbatim_datums,
